@@ -5,6 +5,7 @@
   queue's extend() (a failed attempt delivers nothing).
 -/
 import MoThreads.Proofs.TQInv
+import MoThreads.Proofs.TQRank
 namespace MoThreads.TQWorker
 open MoThreads
 
@@ -31,6 +32,7 @@ theorem C16_failed_batch_is_kept {s s' : State} {b : List Nat} (hs : step s = so
   cases hp : s.pc <;> rw [hp] at hs <;> simp only at hs <;> (try (cases hs; done)) <;> (try (split at hs <;> cases hs <;> simp))
   all_goals (try (rename_i x; cases x <;> (try (rename_i y; cases y)) <;> cases hs))
   all_goals (try (cases hq : s.q <;> rw [hq] at hs <;> simp only at hs <;> (try (split at hs)) <;> cases hs))
+  all_goals (try (simp only [Option.some.injEq, Prod.mk.injEq] at hs; obtain ⟨_, h2⟩ := hs; split at h2 <;> cases h2))
 
 theorem C16_accepted_batch_is_the_buffer {s s' : State} {b : List Nat} (hs : step s = some (s', .extend b true)) :
     s'.sink = s.sink ++ [s.buffer] ∧ s'.buffer = [] ∧ b = s.buffer := by
@@ -38,6 +40,7 @@ theorem C16_accepted_batch_is_the_buffer {s s' : State} {b : List Nat} (hs : ste
   cases hp : s.pc <;> rw [hp] at hs <;> simp only at hs <;> (try (cases hs; done)) <;> (try (split at hs <;> cases hs <;> simp))
   all_goals (try (rename_i x; cases x <;> (try (rename_i y; cases y)) <;> cases hs))
   all_goals (try (cases hq : s.q <;> rw [hq] at hs <;> simp only at hs <;> (try (split at hs)) <;> cases hs))
+  all_goals (try (simp only [Option.some.injEq, Prod.mk.injEq] at hs; obtain ⟨_, h2⟩ := hs; split at h2 <;> cases h2))
 
 /-- Exactly one stop marker reaches the slow queue, and only as the worker's very last act. -/
 theorem C16_one_marker {s : State} (h : sys.Reach s) : s.markers = if s.pc = .done then 1 else 0 := (reach_inv h).Mk
@@ -106,5 +109,54 @@ def demo16 : State :=
 
 example : (demo16.pc, demo16.sink, demo16.markers, demo16.q, demo16.added) = (.done, [[1, 2], [3]], 1, [], [1, 2, 3]) := by
   decide
+
+theorem step_keeps_requests {s s' : State} {l : Label} (hs : step s = some (s', l)) :
+    s'.stopReq = s.stopReq ∧ s'.extStop = s.extStop := by
+  unfold step at hs
+  cases hp : s.pc <;> rw [hp] at hs <;> simp only at hs <;>
+    (first
+      | (cases hs; exact ⟨rfl, rfl⟩)
+      | (split at hs <;> (first | (cases hs; exact ⟨rfl, rfl⟩) | cases hs | (split at hs <;> (first | (cases hs; exact ⟨rfl, rfl⟩) | cases hs))))
+      | (cases hs))
+
+theorem run_keeps_requests {s s' : State} {tr : List (Nat × Label)} (r : sys.Run s tr s') :
+    s'.stopReq = s.stopReq ∧ s'.extStop = s.extStop := by
+  induction r with
+  | nil => exact ⟨rfl, rfl⟩
+  | @cons s0 s1 s2 t l tr' hs _ ih =>
+    change (if t = 0 then step s0 else none) = some (s1, l) at hs
+    split at hs
+    · have := step_keeps_requests hs; exact ⟨ih.1.trans this.1, ih.2.trans this.2⟩
+    · cases hs
+
+/-- L2: without new values and without timers firing, the worker takes at most `rank s` steps — every turn of its
+loop consumes a queued item, an entry of the (finite) failure pattern of the slow queue, or the fired state of the
+current flush timer (`Fresh`: timers that do not exist yet have not fired). -/
+theorem C16_worker_runs_terminate {s s' : State} {tr : List (Nat × Label)} (hf : Fresh s) (r : sys.Run s tr s') :
+    tr.length ≤ rank s := by
+  have := run_length_le_rank hf r; omega
+
+/-- … and once the stop marker has been queued (no external abort), the state in which such a run comes to rest is
+the worker's normal end: stop(), which joins the worker, returns — for every failure pattern. -/
+theorem C16_stop_returns_in_bounded_steps {s s' : State} {tr : List (Nat × Label)} (h : sys.Reach s) (hf : Fresh s)
+    (hr : s.stopReq = true) (hx : s.extStop = false) (r : sys.Run s tr s') :
+    tr.length ≤ rank s ∧ (sys.Quiescent s' → s'.pc = .done) := by
+  refine ⟨C16_worker_runs_terminate hf r, fun hq => ?_⟩
+  have hk := run_keeps_requests r
+  have hq0 : step s' = none := by
+    have := hq 0
+    change (if (0 : Nat) = 0 then step s' else none) = none at this
+    simpa using this
+  exact C16_stop_returns (h.run sys r) (hk.1.trans hr) (hk.2.trans hx) hq0
+
+/-- non-vacuity: the state of `demo16` before the worker runs (three values and the marker queued, failure on the
+second attempt) is reachable and fresh; its rank is 20·4 + 30·2 + 40 -/
+def demo16start : State := add (add (add (add (init 2 [false, true]) (.val 1)) (.val 2)) (.val 3)) .marker
+
+example : sys.Reach demo16start ∧ Fresh demo16start ∧ demo16start.stopReq = true ∧ demo16start.extStop = false ∧ rank demo16start = 180 := by
+  refine ⟨?_, ?_, by decide, by decide, by decide⟩
+  · exact Sys.Reach.env (Sys.Reach.env (Sys.Reach.env (Sys.Reach.env (Sys.Reach.init ⟨2, [false, true], rfl⟩)
+      (Or.inl ⟨_, rfl⟩)) (Or.inl ⟨_, rfl⟩)) (Or.inl ⟨_, rfl⟩)) (Or.inl ⟨_, rfl⟩)
+  · intro k _; rfl
 
 end MoThreads.TQWorker
